@@ -215,6 +215,8 @@ DEFAULT_WEIGHTS = {
     # off by default, switched on by profiles
     "merge": 0, "combine": 0, "split": 0, "unsat_core": 0, "pickle": 0, "pickle_expr": 0, "g_truth": 0, "new": 0,
     "add_replacement": 0, "split_recombine": 0, "merge3": 0,
+    # multi-step shapes random walks rarely produce (DESIGN 9.6.1); cheap, so on everywhere with a small weight
+    "exhaust_batch": 2, "span_branch_add": 0, "late_unsat": 2,
 }
 
 QUERY_KINDS = ("sat", "probe", "eval", "batch_eval", "min", "max", "solution", "is_true", "is_false")
@@ -533,6 +535,15 @@ class HistoryGen:
         elif kind == "merge3":
             self.macro_merge3(hi, h, live)
             return
+        elif kind == "exhaust_batch":
+            self.macro_exhaust_batch(hi, h)
+            return
+        elif kind == "span_branch_add":
+            self.macro_span_branch_add(hi, h, live)
+            return
+        elif kind == "late_unsat":
+            self.macro_late_unsat(hi, h, live)
+            return
         elif kind == "add_replacement":
             if h.cls != "SolverReplacement":
                 return
@@ -636,6 +647,129 @@ class HistoryGen:
                 self.emit({"op": "eval", "h": -1, "e": r.choice([va, vb]), "n": r.choice([1, 2, 40]), "extra": []})
             else:
                 self.emit({"op": k, "h": -1, "e": va, "signed": signed, "extra": []})
+
+    def macro_exhaust_batch(self, hi, h):
+        """enumerate two expressions exhaustively one after the other, then ask for them together: what the solver
+        remembers about each of them says nothing about their combinations"""
+        r = self.r
+        if h.ref.kind != "enum":
+            return
+        eg = self.egf(h)
+        es = []
+        for _ in range(2):
+            v = ["var", r.choice(eg.bvs)] if r.chance(60) else self.qexpr(h)
+            if v not in es:
+                es.append(v)
+        if len(es) < 2:
+            return
+        for e in es:
+            nv = len(h.ref.values(e))
+            if nv == 0 or nv > 40:
+                return
+        for e in es:
+            self.emit(self.exact_op(h, {"op": "eval", "h": hi, "e": e, "n": len(h.ref.values(e)) + r.range(1, 3), "extra": []}))
+        nt = len(h.ref.tuples(es))
+        self.emit(self.exact_op(h, {"op": "batch_eval", "h": hi, "es": es if r.chance(70) else es[::-1], "n": nt + r.range(0, 2),
+                                    "extra": []}))
+        if r.chance(40):
+            k = r.choice(["min", "max"])
+            self.emit(self.exact_op(h, {"op": k, "h": hi, "e": r.choice([["add", es[0], es[1]], ["xor", es[0], es[1]]])
+                                        if width_of(es[0], self.vars) == width_of(es[1], self.vars) else es[0], "signed": r.chance(30), "extra": []}))
+
+    def exact_op(self, h, op):
+        self.exact_arg(h, op)
+        return op
+
+    def macro_span_branch_add(self, hi, h, live):
+        """a query that spans several variables (for a composite: several children, i.e. a combined solver is built
+        and remembered), then a branch, then a constraint over exactly those variables on ONE side, then the same
+        questions on the other side"""
+        r = self.r
+        if h.ref.kind != "enum" or len(live) >= self.max_handles + 1:
+            return
+        eg = self.egf(h)
+        if eg.simple:
+            return
+        by_w = {}
+        for n in eg.bvs:
+            by_w.setdefault(self.vars[n], []).append(n)
+        groups = [ns for ns in by_w.values() if len(ns) >= 2]
+        if not groups:
+            return
+        a, b = r.sample(r.choice(groups), 2)
+        w = self.vars[a]
+        e = [r.choice([o for o in ("add", "xor", "sub", "or") if eg.ok(o)] or ["add"]), ["var", a], ["var", b]]
+        q = lambda hh, kind: self.exact_op(h, {"op": kind, "h": hh, "e": e, "extra": [], **({"n": r.choice([1, 2, 40])} if kind == "eval" else {"signed": False})})  # noqa: E731
+        self.emit(q(hi, r.choice(["eval", "max", "min"])))
+        self.emit({"op": "branch", "h": hi})
+        bi = len([x for x in self.handles if x.alive]) - 1
+        writer, reader = (bi, hi) if r.chance(50) else (hi, bi)
+        V = sorted(h.ref.values(e))
+        if not V:
+            return
+        k = r.choice(V)
+        c = [r.choice(["eq", "ne", "ule", "uge"]), e, ["const", k, w]]
+        self.emit({"op": "add", "h": writer, "cs": [c]})
+        for _ in range(r.range(2, 3)):
+            kind = r.choice(["eval", "max", "min", "sat", "solution"])
+            if kind == "sat":
+                self.emit({"op": "sat", "h": reader, "extra": [["eq", e, ["const", r.choice(V), w]]]})
+            elif kind == "solution":
+                self.emit(self.exact_op(h, {"op": "solution", "h": reader, "e": e, "v": r.choice(V), "extra": []}))
+            else:
+                self.emit(q(reader, kind))
+        if r.chance(50):
+            self.emit(q(writer, r.choice(["eval", "max", "min"])))
+
+    def macro_late_unsat(self, hi, h, live):
+        """a constraint that makes the set unsatisfiable in a way only solving can tell, added WITHOUT asking; then a
+        branch and/or simplify / an optimisation of an unrelated variable before anybody asks for satisfiability"""
+        r = self.r
+        if h.ref.kind != "enum" or not h.ref.M:
+            return
+        eg = self.egf(h)
+        if not eg.bvs or eg.simple:
+            return
+        a = r.choice(eg.bvs)
+        w = self.vars[a]
+        x = ["var", a]
+        cands = []
+        if eg.ok("mul") and w >= 2:
+            # squares are 0 or 1 mod 4: x*x == 2 or 3 (mod 2^w) has no solution
+            cands.append(["eq", ["mul", x, x], ["const", r.choice([2, 3]), w]])
+        if eg.ok("and") and eg.ok("add"):
+            cands.append(["eq", ["and", ["add", x, x], ["const", 1, w]], ["const", 1, w]])  # 2x is even
+        if eg.ok("xor") and eg.ok("add"):
+            cands.append(["ult", ["add", ["xor", x, ["const", 1, w]], x], ["const", 1, w]])  # (x^1)+x is odd, never 0
+        V = sorted(h.ref.values(x))
+        miss = [v for v in range(1 << w) if v not in V]
+        if miss and len(V) > 1:
+            cands.append(["eq", ["add", x, ["const", 1, w]], ["const", (r.choice(miss) + 1) % (1 << w), w]])
+        if not cands:
+            return
+        self.emit({"op": "add", "h": hi, "cs": [r.choice(cands)]})
+        others = [n for n in eg.bvs if n != a]
+        cur = hi
+        if r.chance(70) and len(live) < self.max_handles + 1:
+            self.emit({"op": "branch", "h": hi})
+            if r.chance(60):
+                cur = len([z for z in self.handles if z.alive]) - 1
+        if r.chance(60):
+            self.emit({"op": "simplify", "h": cur})
+        for _ in range(r.range(1, 3)):
+            if others and r.chance(75):
+                y = ["var", r.choice(others)]
+                kind = r.choice(["eval", "max", "min", "sat"])
+                if kind == "sat":
+                    self.emit({"op": "sat", "h": cur, "extra": [["eq", y, ["const", r.below(1 << self.vars[y[1]]), self.vars[y[1]]]]]})
+                elif kind == "eval":
+                    self.emit(self.exact_op(h, {"op": "eval", "h": cur, "e": y, "n": r.choice([1, 2, 5]), "extra": []}))
+                else:
+                    self.emit(self.exact_op(h, {"op": kind, "h": cur, "e": y, "signed": False, "extra": []}))
+            else:
+                self.emit({"op": "sat", "h": cur, "extra": []})
+            if r.chance(40):
+                cur = hi if cur != hi else cur
 
     def macro_merge3(self, hi, h, live):
         """C15: a three-way merge in which two participants share state (branches of one base) and the third has an
@@ -918,7 +1052,7 @@ PROFILES = {
         "frontends": [("SolverComposite", 1)],
         "var_shapes": COMPOSITE_SHAPES,
         "length": (3, 40),
-        "weights": {"branch": 8, "simplify": 6, "split": 2, "combine": 2, "merge": 2},
+        "weights": {"branch": 8, "simplify": 6, "split": 2, "combine": 2, "merge": 2, "span_branch_add": 4, "late_unsat": 4},
         "sweep_pct": 30,
     },
     "C13": {
@@ -980,7 +1114,7 @@ PROFILES = {
     "C14": {
         "frontends": ALL_EXACT,
         "length": (5, 40),
-        "weights": {"branch": 14, "downsize": 4, "simplify": 6, "pickle": 1},
+        "weights": {"branch": 14, "downsize": 4, "simplify": 6, "pickle": 1, "span_branch_add": 4, "late_unsat": 3},
         "pickle_modes": ["replace"],
         "never_swarm_out": ("branch",),
         "sweep_pct": 70,
